@@ -684,8 +684,8 @@ func (w *bcWorld) witness(req [4]string, extra map[string]any) map[string]any {
 
 type c38Stats struct {
 	cmp, matched, multi, tie, ci, unitSens, metachar, empty, plain, tailZero int
-	nsCmp, nsDeny, nsAllowRule, nsUnres, nsUnitSens        int
-	visibleDiff                                            int
+	nsCmp, nsDeny, nsAllowRule, nsUnres, nsUnitSens                          int
+	visibleDiff                                                              int
 }
 
 func (w *bcWorld) check(rng *rand.Rand, st *c38Stats, nReq int) {
